@@ -39,6 +39,15 @@ Theorem c07_unsynced_entry_gone : forall d p draws,
   snd (sstep (dw (dcrash d draws)) (Exists p)) = OBool false.
 Proof. exact unsynced_entry_gone_lemma. Qed.
 
+(* Bytes that were never written never appear: in EVERY history (any operations,
+   any crashes, any coins, any torn-write block size and draws) every byte the
+   reference ever returns from a read is 0 or one of the bytes handed to a write
+   operation of that history.  Together with c07_crash_image the same holds for
+   the implementation's reads. *)
+Theorem c07_no_unwritten_bytes : forall bs l k b,
+  nth k (snd (drun (init_dworld bs) l)) ONoSlot = OBytes b -> okb (written l) b.
+Proof. exact no_unwritten_bytes_lemma. Qed.
+
 (* Random background sync: a coin that comes up true is a data sync of that file
    right after the write, nothing else (so the post-crash contents are the
    contents at a sync point not earlier than the last explicit one). *)
@@ -74,6 +83,7 @@ Proof. vm_compute. repeat split; reflexivity. Qed.
 Print Assumptions c07_crash_image.
 Print Assumptions c07_synced_never_lost.
 Print Assumptions c07_unsynced_entry_gone.
+Print Assumptions c07_no_unwritten_bytes.
 Print Assumptions c07_random_sync.
 Print Assumptions c07_rename_file_refuted.
 Print Assumptions c07_recreate_refuted.
